@@ -176,6 +176,10 @@ def cases(ctx):
                 steps.append(['op', rng.randint(0, 7), name, rng.randint(0, 10 ** 6)])
             else:
                 steps.append([rng.choice(['pickle', 'deepcopy', 'copy', 'selector']), rng.randint(0, 7), rng.randint(0, 10 ** 6)])
+        if i % (90 if quick else 1500) == 7:
+            # a container longer than anything built so far in this process: library-wide caches that grow on demand
+            # (the shared positions buffer) are rebuilt, and what they hand out afterwards must still be read-only
+            steps.insert(rng.randint(0, len(steps) - 1), ['big', 0, rng.randint(0, 10 ** 6)])
         yield {'k': 'prog', 'conts': conts, 'steps': steps}
 
 
@@ -340,6 +344,16 @@ def run_step(step, live, r_aux):
             raise LookupError('no columns')
         args = ops.rand_args(name, rng, spec_like)
         return f'Frame.{name}{args}', ops.CATALOGUE[name][1](tgt, args)
+    if kind == 'big':
+        global BIG_NEXT
+        n = BIG_NEXT
+        BIG_NEXT = BIG_NEXT * 2 + 1
+        r = step[2] % 3
+        if r == 0:
+            return f'Index(<{n} labels>)', sf.Index(np.arange(n) * 2 + 1)
+        if r == 1:
+            return f'Series(<{n} values>, index=<{n} labels>)', sf.Series(np.arange(n), index=np.arange(n) * 3 + 1)
+        return f'IndexHierarchy.from_product(<{n}>, 2)', sf.IndexHierarchy.from_product(np.arange(n) * 2, ('a', 'b'))
     if kind == 'pickle':
         return f'pickle({type(tgt).__name__})', pickle.loads(pickle.dumps(tgt))
     if kind == 'deepcopy':
@@ -353,6 +367,9 @@ def run_step(step, live, r_aux):
         key = keys[r % len(keys)]
         return f'{type(tgt).__name__}.iloc[{key!r}]', tgt.iloc[key]
     raise ValueError(kind)
+
+
+BIG_NEXT = 1100      # length of the next 'big' container (beyond every capacity reached so far in this process)
 
 
 # ------------------------------------------------------------------ evaluation
@@ -422,7 +439,8 @@ def evaluate(ctx, c, outs):
                     flat = a.reshape(-1)
                     v = flat[0]
                     if a.dtype.kind in 'iuf':
-                        flat[0] = v + 1
+                        with np.errstate(all='ignore'):
+                            flat[0] = v + 1
                     elif a.dtype.kind == 'b':
                         flat[0] = not v
                     elif a.dtype.kind == 'U':
